@@ -22,9 +22,10 @@ TReadLead   == IsEvent("read_lead")     /\ ReadLeadX(E.leadOk, E.ret, E.es, F)
 TReadHeader == IsEvent("read_header")   /\ ReadHeaderX(E.sealed, E.wf, E.ret, E.es, F)
 TRewind     == IsEvent("rewind")        /\ Rewind(E.es)
 TReinit     == IsEvent("reinit")        /\ Reinit(E.ret, E.es)
+TSwap       == IsEvent("swap")          /\ Swap
 
 Init == PinInit /\ l = 1
-Next == TReset \/ TSetType \/ TSetDigest \/ TSetLen \/ TValidate \/ TReadLead \/ TReadHeader \/ TRewind \/ TReinit
+Next == TReset \/ TSetType \/ TSetDigest \/ TSetLen \/ TValidate \/ TReadLead \/ TReadHeader \/ TRewind \/ TReinit \/ TSwap
 Spec == Init /\ [][Next]_tvars
 
 Accepted == /\ PrintT(<<"MATCHED", TLCGet("stats").diameter - 1, Len(TraceLog)>>)
